@@ -51,11 +51,22 @@ JOBS = {'quick': 4, 'thorough': 16}
 ALPHABET = ['&', '=', ',', '+', '%', '4', 'a', 'g', '\x00', 'é']
 TRUE_S = {'true', 'True', 't', 'yes', 'y', '1', 'on'}       # documented in get_param_as_bool
 FALSE_S = {'false', 'False', 'f', 'no', 'n', '0', 'off'}
+_T_ORDER = ['true', 'True', 't', 'yes', 'y', '1', 'on']     # the order in which the source (and the Lean table) lists them
+_F_ORDER = ['false', 'False', 'f', 'no', 'n', '0', 'off']
+
+
+def _order(tab):
+    pos = {'.'.join(str(ord(c)) for c in w): n for n, w in enumerate(tab)}
+    return lambda shown: (pos.get(shown, len(pos)), shown)
+
+
+TSORT, FSORT = _order(_T_ORDER), _order(_F_ORDER)
 
 
 def run(ctx):
     import datetime
     import itertools
+    import sys
     import json
     import math
     import uuid
@@ -191,16 +202,70 @@ def run(ctx):
     METH = {'param': 'get_param', 'int': 'get_param_as_int', 'float': 'get_param_as_float', 'bool': 'get_param_as_bool', 'uuid': 'get_param_as_uuid',
             'datetime': 'get_param_as_datetime', 'date': 'get_param_as_date', 'json': 'get_param_as_json', 'list': 'get_param_as_list'}
 
-    def real_get(req, key, kind, kw, use_store):
-        store = {} if use_store else None
+    def real_get(req, key, kind, kw, pre):
+        store = dict(pre) if pre is not None else None
         try:
             v = getattr(req, METH[kind])(key, store=store, **kw)
             return ('ret', v, store)
         except falcon.HTTPBadRequest as e:
             ok400 = str(e.status).startswith('400')
-            return ('exc', type(e).__name__ if ok400 else f'{type(e).__name__} with status {e.status}')
+            return ('exc', type(e).__name__ if ok400 else f'{type(e).__name__} with status {e.status}', store)
         except BaseException as e:  # noqa
-            return ('exc', f'{type(e).__name__}: {str(e)[:80]}')
+            return ('exc', f'{type(e).__name__}: {str(e)[:80]}', store)
+
+    # ---- the Lean model of get_param / _as_int / _as_bool / _as_list (Gt.*, driver ops of qsdriver)
+    OLD = [('old0',), ('old1',), ('old2',)]          # values already in the store (compared by identity)
+
+    def pre_store(key):
+        r = rnd.random()
+        other = 'other' if key != 'other' else 'other2'
+        if r < 0.3: return None
+        if r < 0.55: return {}
+        if r < 0.7: return {other: OLD[0]}
+        if r < 0.85: return {key: OLD[1], other: OLD[2]}
+        return {other: OLD[2], key: OLD[1]}
+
+    def show_value(kind, v):
+        if kind == 'param': return ss(v)
+        if kind == 'int': return str(v)
+        if kind == 'bool': return 'True' if v is True else 'False' if v is False else repr(v)
+        return '[' + ','.join(ss(x) if isinstance(x, str) else str(x) for x in v) + ']'
+
+    def show_store(kind, st):
+        if st is None: return 'none'
+        if not st: return '-'
+        return ';'.join(ss(k) + '=' + (v[0] if (isinstance(v, tuple) and any(v is o for o in OLD)) else show_value(kind, v)) for k, v in st.items())
+
+    def store_arg(pre):
+        if pre is None: return 'none'
+        if not pre: return '-'
+        return ','.join(hx(k.encode('utf-8')) + ':' + v[0] for k, v in pre.items())
+
+    def model_getter(qh, kb, csv, key, kind, kw, pre, got, meta):
+        """One line for the model, with the reply the real getter's behaviour corresponds to."""
+        tr = kw.get('transform')
+        if kind not in ('param', 'int', 'bool', 'list') or (tr is not None and tr is not int):
+            return
+        req_ = 1 if kw.get('required') else 0
+        head = f'{qh} {1 if kb else 0} {1 if csv else 0} {hx(key.encode("utf-8"))} {req_}'
+        if kind == 'param':
+            line = f'getparam {head} {store_arg(pre)}'
+        elif kind == 'int':
+            mn, mx = kw.get('min_value'), kw.get('max_value')
+            line = f'getint {head} {"none" if mn is None else mn} {"none" if mx is None else mx} {store_arg(pre)}'
+        elif kind == 'bool':
+            line = f'getbool {head} {1 if kw.get("blank_as_true", True) else 0} {store_arg(pre)}'
+        else:
+            line = f'getlist {head} {"int" if tr is int else "none"} {store_arg(pre)}'
+        if got[0] == 'exc':
+            res = {'HTTPMissingParam': 'missing400', 'HTTPInvalidParam': 'invalid400'}.get(got[1], 'EXC:' + got[1])
+        else:
+            v = got[1]
+            is_default = (v is SENT) if 'default' in kw else (v is None)
+            res = 'default' if is_default else 'value:' + show_value(kind, v)
+        sessg.case(meta)
+        sessg.op(line, res + ' | ' + show_store(kind, got[2]))
+        ctx.count('model_' + line.split(' ', 1)[0] + '_' + res.split(':', 1)[0])
 
     def calls_for(m, key, rich):
         """The (kind, kwargs) list to run for one name."""
@@ -269,6 +334,8 @@ def run(ctx):
                      'only HTTPInvalidParam / HTTPMissingParam (400) are raised; has_param')
 
     def check_getters(req, m, case, rich):
+        qh = hx(case['query_string'].encode('utf-8'))
+        kb_, csv_ = case['keep_blank_qs_values'], case['auto_parse_qs_csv']
         keys = list(m.keys())
         absent = next(k for k in ('zz', 'absent', 'zz1', '\x01none') if k not in m)
         for key in keys + [absent]:
@@ -283,28 +350,37 @@ def run(ctx):
             ncalls = 0
             if bad is None:
                 for kind, kw in calls_for(m, key, rich):
-                    use_store = rnd.random() < 0.6
-                    got = real_get(req, key, kind, kw, use_store)
+                    pre = pre_store(key)
+                    use_store = pre is not None
+                    got = real_get(req, key, kind, kw, pre)
                     want = ref_get(m, key, kind, kw)
+                    if use_store:   # the store the statement asks for: untouched unless a value is returned, then exactly store[name] = value
+                        exp_store = dict(pre)
+                        if want[0] == 'ret' and want[2]:
+                            exp_store[key] = want[1]
+                    model_getter(qh, kb_, csv_, key, kind, kw, pre, got, dict(case, name=key, kind=kind))
                     ncalls += 1
                     ctx.count('getter_' + kind + '_' + (want[1] if want[0] == 'exc' else 'returned' if want[2] else 'default'))
-                    call = f'{METH[kind]}({key!r}{", " if kw else ""}{show_kw(kw)}{", store={}" if use_store else ""})'
+                    call = f'{METH[kind]}({key!r}{", " if kw else ""}{show_kw(kw)}{", store=" + repr(pre) if use_store else ""})'
                     if got[0] != want[0]:
                         bad = f'{call} -> {got[1]!r}, reference: {want[1]!r}'
                     elif got[0] == 'exc':
                         if got[1] != want[1]:
                             bad = f'{call} raised {got[1]}, reference: {want[1]}'
+                        elif use_store and not (same(got[2], exp_store) and list(got[2]) == list(exp_store)):
+                            bad = f'{call} raised {got[1]} but changed the store {pre!r} to {got[2]!r}'
                     else:
                         if not same(got[1], want[1]):
                             bad = f'{call} returned {got[1]!r}, reference conversion of the last occurrence gives {want[1]!r}'
-                        elif use_store and not same(got[2], want[2]):
-                            bad = f'{call} left store = {got[2]!r}, expected {want[2]!r}'
+                        elif use_store and not (same(got[2], exp_store) and list(got[2]) == list(exp_store)):
+                            bad = f'{call} on store {pre!r} left store = {got[2]!r}, expected {exp_store!r}'
                     if bad:
                         break
             ctx.oracle(GETTER_ORACLE, bad is None, bad, dict(case, name=key))
 
     # ------------------------------------------------------------- one query string, all options, three entry points
     sess = ctx.session('parse_query_string / req.params (WSGI, ASGI) = Qs.parseQS model', 'qsdriver')
+    sessg = ctx.session('get_param / get_param_as_int / _as_bool / _as_list (WSGI, ASGI; result + store), int(), to_query_str = Gt model', 'qsdriver')
     PARSE_ORACLE = ('params == form-urlencoded reference reading (split on & and first =, %/+ decoding as UTF-8 with replacement, malformed escapes literal, '
                     'repeats collected in order, blank rule, CSV on literal commas only); parsing never raises')
 
@@ -411,6 +487,11 @@ def run(ctx):
     CH = list('ab1 &=,+%?#/~.-_') + ['\x00', 'é', '€', '\U0001F600', '%41', '%2C', '\n', '"']
     RT_ORACLE = 'to_query_str(mapping) parses back to the mapping (string values, lists >= 2, no empty name with empty value)'
 
+    def show_mapping(m):
+        if not m: return '-'
+        h = lambda t: hx(t.encode('utf-8'))
+        return ';'.join(h(k_) + '=' + ('1:' + h(v)) if isinstance(v, str) else h(k_) + '=m:' + ','.join(h(x) for x in v) for k_, v in m.items())
+
     def rstr(lo=0):
         return ''.join(rnd.choice(CH) for _ in range(rnd.randint(lo, rnd.choice([1, 3, 6, 12]))))
 
@@ -447,6 +528,79 @@ def run(ctx):
         ctx.oracle(RT_ORACLE, bad is None, bad, {'mapping': m, 'comma_delimited_lists': cdl, 'keep_blank_qs_values': keep_blank, 'auto_parse_qs_csv': csv, 'entry': entry})
         ctx.seen(('rt', repr(m), cdl, keep_blank, csv, entry), bool(m))
         ctx.count('roundtrip_' + entry)
+        if qs is not None:
+            # the Lean toQueryStr renders the same bytes, and the Lean parser reads them back like the real one
+            sessg.case({'kind': 'to_query_str', 'mapping': m, 'comma_delimited_lists': cdl})
+            sessg.op(f'toqs {1 if cdl else 0} 0 {show_mapping(m)}', hx(qs.encode('utf-8')))
+            sessg.op(f'{1 if keep_blank else 0} {1 if csv else 0} {hx(qs.encode("utf-8"))}', render(back) if bad is None or back is not None else '?')
+
+    # to_query_str alone: also empty and one-element lists, empty mapping, both prefix settings
+    for _ in range(ctx.n(1500, 20000)):
+        m = {}
+        for _ in range(rnd.choice([0, 1, 1, 2, 3, 5])):
+            key = rstr()
+            m[key] = [rstr() for _ in range(rnd.choice([0, 1, 2, 3]))] if rnd.random() < 0.5 else rstr()
+        cdl, pfx = rnd.random() < 0.5, rnd.random() < 0.5
+        try:
+            exp = hx(to_query_str(m, comma_delimited_lists=cdl, prefix=pfx).encode('utf-8'))
+        except Exception as e:  # noqa
+            exp = 'EXC:' + type(e).__name__
+        sessg.case({'kind': 'to_query_str', 'mapping': m, 'comma_delimited_lists': cdl, 'prefix': pfx})
+        sessg.op(f'toqs {1 if cdl else 0} {1 if pfx else 0} {show_mapping(m)}', exp)
+        ctx.count('to_query_str_only')
+
+    # ------------------------------------------------------------- the constants and int() of the getter model
+    import unicodedata
+    import falcon.request as frq
+
+    def py_int(t):
+        try:
+            return str(int(t))
+        except ValueError:
+            return 'VE'
+
+    if ctx.shard[0] == 0:
+        zeros = [c for c in range(0x110000) if unicodedata.decimal(chr(c), -1) == 0]
+        nd = sum(1 for c in range(0x110000) if unicodedata.decimal(chr(c), -1) >= 0)
+        assert nd == 10 * len(zeros) and all(unicodedata.decimal(chr(z + i), -1) == i for z in zeros for i in range(10))
+        sessg.case({'kind': 'constants: TRUE_STRINGS / FALSE_STRINGS of falcon/request.py, Unicode decimal digits, sys.int_max_str_digits'})
+        sessg.op('tables', 'T ' + ','.join(sorted((ss(x) for x in frq.TRUE_STRINGS), key=TSORT)) + ' F ' + ','.join(sorted((ss(x) for x in frq.FALSE_STRINGS), key=FSORT))
+                 + ' Z ' + ','.join(map(str, zeros)) + ' MAXDIGITS ' + str(sys.get_int_max_str_digits()))
+        sessg.case({'kind': 'constants: the code points int() strips = str.isspace() minus the ASCII separators 0x1c-0x1f'})
+        sessg.op('intws 0 1114112', 'W ' + ','.join(str(c) for c in range(0x110000) if chr(c).isspace() and not 28 <= c <= 31))
+        for nd_, sign in ((4299, ''), (4300, ''), (4301, ''), (4300, '-'), (4301, '+'), (4301, ' ')):
+            for d in ('9', '0', '1_', '٣'):
+                t = sign + (d * nd_).rstrip('_')
+                sessg.case({'kind': 'int() digit limit', 'digits': nd_, 'digit': d, 'sign': sign})
+                sessg.op('pyint ' + ss(t), py_int(t))
+    # int() on every code point (quick: all below 0x3100, the neighbourhood of every digit block, a sample of the rest)
+    i, k = ctx.shard
+    if ctx.quick:
+        cps = set(range(0x3100)) | {z + d for z in [c for c in range(0x3100, 0x110000) if unicodedata.decimal(chr(c), -1) == 0] for d in range(-2, 12)}
+        cps |= {rnd.randrange(0x3100, 0x110000) for _ in range(4000)}
+        cps = sorted(cps)
+    else:
+        cps = range(0x110000)
+    for c in cps:
+        if c % k != i:
+            continue
+        ch = chr(c)
+        sessg.case({'kind': 'int() per code point', 'code_point': c})
+        for t in (ch, ch + '5', '5' + ch, '1' + ch + '2', '-' + ch, ch + '-5'):
+            sessg.op('pyint ' + ss(t), py_int(t))
+        ctx.count('int_code_point')
+    # int() grammar: every string up to length 4 (5) over signs, digits of two scripts, underscore, stripped and unstripped spaces, junk
+    IA = ['0', '7', '_', '+', '-', ' ', '\x1c', '\xa0', '٣', 'x', '\u2003']
+    idx = 0
+    for n in range((4 if ctx.quick else 5) + 1):
+        for tup in itertools.product(IA, repeat=n):
+            if idx % k == i:
+                t = ''.join(tup)
+                sessg.case({'kind': 'int() grammar', 'text': t})
+                sessg.op('pyint ' + ss(t), py_int(t))
+                ctx.count('int_grammar')
+            idx += 1
+    sessg.finish()
 
 
 LEVEL_TEXT = ('Machine-checked proofs (Lean 4) for the decoder under the parser (all code paths of uri.decode = reference decoder; decode(encode_value(s)) = s) and for the '
